@@ -312,9 +312,16 @@ class GraphStream(TripleStream):
         start_row = jelly.RdfStreamRow(graph_start=graph_start)
         graph_rows.append(start_row)
         self.flow.extend(graph_rows)
-        for triple in graph:
-            if frame := self.triple(triple):  # has frame slicing inside
-                yield frame
+        try:
+            for triple in graph:
+                if frame := self.triple(triple):  # has frame slicing inside
+                    yield frame
+        except BaseException:
+            # The graph was started and will not be ended (the source of its triples
+            # failed, or the caller closed this generator): anything written after it
+            # would land inside the unfinished graph.
+            self.failed = True
+            raise
         end_row = jelly.RdfStreamRow(graph_end=jelly.RdfGraphEnd())
         self.flow.append(end_row)
         if frame := self.flow.frame_from_bounds():
